@@ -5,7 +5,7 @@ import plistlib
 import random
 
 from vlib import gt
-from vlib.par import pmap
+from vlib.par import pmap, timeout_failure
 
 PROPERTY = 'C09'
 LEVEL = 'other'
@@ -124,7 +124,7 @@ def bounded(tier, seed, repo_root):
     rnd = random.Random(seed)
     docs = gen_docs(rnd, 60 if tier == 'quick' else 600)
     jobs = [(d, rnd.choice(docs), gt.OPTION_COMBOS[i % 9]) for i, d in enumerate(docs)]
-    fails = [f for fs in pmap(_job, jobs, repo_root, chunksize=1) for f in fs]
+    fails = [f for fs in pmap(_job, jobs, repo_root, chunksize=1, job_timeout=120, on_timeout=timeout_failure('C09')) for f in fs]
     return [{
         'name': 'C09.formats', 'bound': f"{len(docs)} documents in the common domain (string keys; string/int/float/bool values; lists and mappings incl. "
         f"empty ones, falsy scalars and scalars at top level, depth <= 3) x 16 ordered pairs of json/json5/yaml/plist, options cycling through the 9",
